@@ -46,19 +46,29 @@ Definition lev_of (c : cell) : nat := match c with Some x => x | None => 0 end.
 (** the cell of a factor of [act_design]: the level whose variable is on *)
 Definition cell_act (s : asg) (t f : nat) : cell := find (fun l => bit s t f l) (seq 0 (nlevels fb f)).
 
-(** the cell of an implied factor: the first level whose table accepts the levels
-    of the depended-on (act) factors in that trial ([add_implied_levels]) *)
-Definition impl_args (s : asg) (t : nat) (w : fwindow) : list nat :=
-  map (fun d => lev_of (cell_act s t d)) (win_deps w).
+(** the rows of the factors of [act_design] as a sequence (the other rows are not read) *)
+Definition dec_act (s : asg) : tseq :=
+  map (fun f => map (fun t => cell_act s t f) (seq 0 (T fb))) (seq 0 (nf fb)).
 
+(** the cell of an implied factor: nothing where the factor does not apply, else the
+    first level whose table accepts the window over the decoded rows of the
+    depended-on (act) factors ([add_implied_levels]) *)
 Definition cell_impl (s : asg) (t f : nat) : cell :=
   match factor_at fb f with
   | Some fd => match ff_window fd with
-               | Some w => find (fun l => level_accepts fd l (impl_args s t w)) (seq 0 (nlevels fb f))
+               | Some w =>
+                 if applies (code_factor fb f fd) t
+                 then find (fun l => accepts (dwin fd w) l (window_args (dec_act s) (code_factor fb f fd) (dwin fd w) t))
+                           (seq 0 (nlevels fb f))
+                 else None
                | None => None
                end
   | None => None
   end.
+
+(** does factor [f] have a level in trial [t] *)
+Definition appl (f t : nat) : bool :=
+  match factor_at fb f with Some fd => applies (code_factor fb f fd) t | None => true end.
 
 Definition cell_of (s : asg) (t f : nat) : cell :=
   if isact fb f then cell_act s t f else cell_impl s t f.
@@ -66,13 +76,13 @@ Definition cell_of (s : asg) (t f : nat) : cell :=
 Definition decode (s : asg) : tseq :=
   map (fun f => map (fun t => cell_of s t f) (seq 0 (T fb))) (seq 0 (nf fb)).
 
-(** [q] is a complete sequence (one level per cell), the grid part of [s] is the
-    one-hot image of its rows for the factors of [act_design], and its rows for
-    the implied factors are the levels derived from those *)
+(** [q] has one level per cell of the factors of [act_design], the grid part of [s]
+    is the one-hot image of those rows, and the rows of the implied factors are the
+    levels derived from them (no level where the factor does not apply) *)
 Definition onehot (s : asg) (q : tseq) : Prop :=
   length q = nf fb /\
   (forall f, f < nf fb -> length (nth f q []) = T fb) /\
-  (forall t f, t < T fb -> f < nf fb -> exists l, l < nlevels fb f /\ get_cell q f t = Some l) /\
+  (forall t f, t < T fb -> isact fb f = true -> exists l, l < nlevels fb f /\ get_cell q f t = Some l) /\
   (forall t f l, t < T fb -> isact fb f = true -> l < nlevels fb f -> bit s t f l = is_level l (get_cell q f t)) /\
   (forall t f, t < T fb -> f < nf fb -> isact fb f = false -> get_cell q f t = cell_impl s t f).
 
@@ -97,7 +107,7 @@ Proof.
   induction xs as [|x xs IH]; cbn [existsb find]; [discriminate|]. destruct (p x); [eauto|]. cbn [orb]. exact IH.
 Qed.
 
-Lemma in_product_lists (g : nat -> nat) (L : nat -> list nat) : forall deps,
+Lemma in_product_lists {A B} (g : A -> B) (L : A -> list B) : forall deps,
   (forall d, In d deps -> In (g d) (L d)) -> In (map g deps) (product (map L deps)).
 Proof.
   induction deps as [|d deps IH]; intros H; [now left|].
@@ -105,18 +115,109 @@ Proof.
   apply in_map. apply IH. intros e He. apply H. now right.
 Qed.
 
-(** an implied factor of an F1 record: its window, dependencies in [act_design], total table *)
+(** a column of [width] in-range levels is one of [all_cols] *)
+Lemma in_all_cols n : forall (c : list cell),
+  Forall (fun x => exists i, i < n /\ x = Some i) c -> In c (all_cols n (length c)).
+Proof.
+  induction c as [|x c IH]; intros H; [now left|]. inversion H as [|? ? (i & Hi & ->) Hr]; subst.
+  cbn [length all_cols]. apply in_flat_map. exists i. split; [apply in_seq; lia|]. apply in_map. now apply IH.
+Qed.
+
+(** a filter of length one: [find] returns its only member *)
+Lemma find_only (p : nat -> bool) n l :
+  length (filter p (seq 0 n)) = 1 -> l < n -> p l = true -> find p (seq 0 n) = Some l.
+Proof.
+  intros H1 Hl Pl. destruct (find p (seq 0 n)) as [l1|] eqn:E.
+  - destruct (find_in_range p n l1 E) as [Hl1 Pl1]. destruct (Nat.eq_dec l1 l) as [->|N]; [reflexivity|exfalso].
+    assert (H2 : 2 <= length (filter p (seq 0 n))).
+    { change 2 with (length [l1; l]). apply NoDup_incl_length.
+      - constructor; [|constructor; [intros []|constructor]]. intros [Q|[]]. now apply N.
+      - intros x [<-|[<-|[]]]; apply filter_In; (split; [apply in_seq; lia|assumption]). }
+    lia.
+  - pose proof (find_none _ _ E l ltac:(apply in_seq; lia)) as Q. cbv beta in Q. congruence.
+Qed.
+
+Lemma nlevels_at f fd : nth_error (fl_design fb) f = Some fd -> nlevels fb f = length (ff_levels fd).
+Proof. intros E. unfold nlevels, factor_at. now rewrite E. Qed.
+
+Lemma f1_sustain1 f : sustain_of fb f = 1.
+Proof. exact (f1_sustain fb Facts f). Qed.
+
+(** a factor of [act_design] has a level in every trial *)
+Lemma appl_act f t : isact fb f = true -> appl f t = true.
+Proof.
+  intros Ha. unfold appl, factor_at. destruct (nth_error (fl_design fb) f) as [fd|] eqn:Efd; [|reflexivity].
+  unfold applies. cbn [f_derived code_factor]. destruct (ff_window fd) as [w|] eqn:Ew; [|reflexivity].
+  pose proof (f1_factor fb Facts f fd Efd Ha) as H. unfold factor_f1 in H. rewrite Ew in H.
+  rewrite !andb_true_iff in H. destruct H as [_ [[_ H2] H3]]. apply Nat.eqb_eq in H2, H3.
+  cbn [w_start w_stride]. rewrite H2, H3. rewrite Nat.mod_1_r. reflexivity.
+Qed.
+
+(** an implied factor of an F1 record: its window never reads before the first
+    trial, its dependencies are in [act_design], one level accepts every argument tuple *)
 Lemma implied_facts f : f < nf fb -> isact fb f = false ->
   exists fd w, nth_error (fl_design fb) f = Some fd /\ ff_window fd = Some w /\
-               Forall (fun d => isact fb d = true) (win_deps w) /\ tables_total fb fd = true.
+               Forall (fun d => isact fb d = true) (win_deps w) /\
+               0 < win_width w /\ 0 < win_stride w /\ win_width w - 1 <= win_start w /\
+               (forall args, In args (all_args fb w) ->
+                  length (filter (fun l => accepts (dwin fd w) l args) (seq 0 (nlevels fb f))) = 1).
 Proof.
   intros Hf Ha. destruct (nth_error (fl_design fb) f) as [fd|] eqn:Efd.
   2:{ apply nth_error_None in Efd. unfold nf in Hf. lia. }
   pose proof (f1_implied fb Facts f fd Efd) as Hi. unfold implied_ok in Hi. rewrite Ha in Hi. cbn [orb] in Hi.
-  apply andb_true_iff in Hi. destruct Hi as [Hw Htot]. destruct (ff_window fd) as [w|] eqn:Ew; [|discriminate].
-  exists fd, w. split; [reflexivity|]. split; [exact Ew|]. split; [|exact Htot].
-  destruct (f1_tables fb Facts f fd Efd) as [Htab _]. unfold tables_ok in Htab. rewrite Ew in Htab.
-  apply andb_true_iff in Htab. destruct Htab as [Hd _]. rewrite forallb_forall in Hd. now apply Forall_forall.
+  apply andb_true_iff in Hi. destruct Hi as [Hw Htot]. unfold factor_impl_f1 in Hw.
+  destruct (ff_window fd) as [w|] eqn:Ew; [|rewrite andb_false_r in Hw; discriminate].
+  rewrite !andb_true_iff in Hw. destruct Hw as [_ [[W1 W2] W3]].
+  apply Nat.ltb_lt in W1, W2. apply Nat.leb_le in W3.
+  exists fd, w. split; [reflexivity|]. split; [exact Ew|]. split; [|split; [exact W1|split; [exact W2|split; [exact W3|]]]].
+  - destruct (f1_tables fb Facts f fd Efd) as [Htab _]. unfold tables_ok in Htab. rewrite Ew in Htab.
+    apply andb_true_iff in Htab. destruct Htab as [Hd _]. rewrite forallb_forall in Hd. now apply Forall_forall.
+  - intros args Hin. unfold tables_total in Htot. rewrite Ew, forallb_forall in Htot.
+    rewrite (nlevels_at f fd Efd). apply Nat.eqb_eq. now apply Htot.
+Qed.
+
+(** the window of an implied factor at a trial where it applies reads only
+    earlier-or-equal trials *)
+Lemma impl_window_args (q : tseq) f fd w t :
+  win_width w - 1 <= win_start w -> applies (code_factor fb f fd) t = true -> ff_window fd = Some w ->
+  window_args q (code_factor fb f fd) (dwin fd w) t =
+  map (fun d => map (fun j => get_cell q d (t - (win_width w - 1 - j))) (seq 0 (win_width w))) (win_deps w).
+Proof.
+  intros Hws Hap Ew. unfold applies in Hap. cbn [f_derived code_factor] in Hap. rewrite Ew in Hap.
+  cbn [f_sustain code_factor w_start w_stride] in Hap. rewrite (f1_sustain1 f), Nat.div_1_r in Hap.
+  apply andb_true_iff in Hap. destruct Hap as [Hst _]. apply Nat.leb_le in Hst.
+  unfold window_args. cbn [f_sustain code_factor w_deps w_width dwin]. rewrite (f1_sustain1 f), Nat.div_1_r, Nat.mul_1_r.
+  apply map_ext. intros d. apply map_ext_in. intros j Hj. apply in_seq in Hj. rewrite Nat.mul_1_r.
+  replace (win_width w - 1 - j <=? t) with true by (symmetry; apply Nat.leb_le; lia). reflexivity.
+Qed.
+
+(** the window only depends on the rows of the depended-on factors *)
+Lemma impl_window_ext (q q' : tseq) f fd w t :
+  win_width w - 1 <= win_start w -> applies (code_factor fb f fd) t = true -> ff_window fd = Some w ->
+  (forall d t', In d (win_deps w) -> t' <= t -> get_cell q d t' = get_cell q' d t') ->
+  window_args q (code_factor fb f fd) (dwin fd w) t = window_args q' (code_factor fb f fd) (dwin fd w) t.
+Proof.
+  intros Hws Hap Ew H. rewrite !(impl_window_args _ f fd w t Hws Hap Ew).
+  apply map_ext_in. intros d Hd. apply map_ext. intros j. apply H; [exact Hd|lia].
+Qed.
+
+(** if the depended-on cells are levels, the window is one of the tuples of [all_args] *)
+Lemma impl_window_in (q : tseq) f fd w t :
+  win_width w - 1 <= win_start w -> applies (code_factor fb f fd) t = true -> ff_window fd = Some w ->
+  (forall d t', In d (win_deps w) -> t' <= t -> exists x, x < nlevels fb d /\ get_cell q d t' = Some x) ->
+  In (window_args q (code_factor fb f fd) (dwin fd w) t) (all_args fb w).
+Proof.
+  intros Hws Hap Ew H. rewrite (impl_window_args q f fd w t Hws Hap Ew). unfold all_args.
+  apply in_product_lists. intros d Hd.
+  replace (win_width w) with (length (map (fun j => get_cell q d (t - (win_width w - 1 - j))) (seq 0 (win_width w)))) at 2
+    by now rewrite map_length, seq_length.
+  apply in_all_cols. apply Forall_forall. intros c Hc. apply in_map_iff in Hc. destruct Hc as (j & <- & _).
+  destruct (H d (t - (win_width w - 1 - j)) Hd ltac:(lia)) as (x & Hx & Ex). now exists x.
+Qed.
+
+Lemma dec_act_cell s t f : t < T fb -> f < nf fb -> get_cell (dec_act s) f t = cell_act s t f.
+Proof.
+  intros Ht Hf. unfold get_cell, dec_act. rewrite (nth_map_seq _ (nf fb) f [] Hf). now rewrite nth_map_seq.
 Qed.
 
 (** on a consistent grid every act cell is a level in range *)
@@ -130,20 +231,26 @@ Proof.
   split; [|exact Hb]. unfold cell_act. now apply find_unique.
 Qed.
 
-(** ... and every implied cell is the level its table derives *)
+(** ... and every implied cell is the level its table derives, where the factor applies *)
 Lemma pcons_cell_impl s t f : Pcons fb s -> t < T fb -> f < nf fb -> isact fb f = false ->
-  exists l, l < nlevels fb f /\ cell_impl s t f = Some l.
+  if appl f t then exists l, l < nlevels fb f /\ cell_impl s t f = Some l else cell_impl s t f = None.
 Proof.
-  intros H Ht Hf Ha. destruct (implied_facts f Hf Ha) as (fd & w & Efd & Ew & Hdeps & Htot).
-  unfold cell_impl, factor_at. rewrite Efd, Ew.
-  assert (Hin : In (impl_args s t w) (product (map (fun d => seq 0 (nlevels fb d)) (win_deps w)))).
-  { unfold impl_args. apply in_product_lists. intros d Hd.
-    destruct (pcons_cell_act s t d H Ht (proj1 (Forall_forall _ _) Hdeps d Hd)) as (i & Hi & Ei & _).
-    rewrite Ei. cbn [lev_of]. apply in_seq. lia. }
-  unfold tables_total in Htot. rewrite Ew, forallb_forall in Htot. specialize (Htot _ Hin).
-  assert (Enl : nlevels fb f = length (ff_levels fd)) by (unfold nlevels, factor_at; now rewrite Efd).
-  rewrite <- Enl in Htot. destruct (find_exists _ _ Htot) as (l & El). exists l. split; [|exact El].
-  now apply find_in_range in El.
+  intros H Ht Hf Ha. destruct (implied_facts f Hf Ha) as (fd & w & Efd & Ew & Hdeps & W1 & W2 & W3 & Htot).
+  unfold appl, cell_impl, factor_at. rewrite Efd, Ew.
+  destruct (applies (code_factor fb f fd) t) eqn:Hap; [|reflexivity].
+  assert (Hin : In (window_args (dec_act s) (code_factor fb f fd) (dwin fd w) t) (all_args fb w)).
+  { apply impl_window_in; try assumption. intros d t' Hd Ht'.
+    pose proof (proj1 (Forall_forall _ _) Hdeps d Hd) as Hda. cbv beta in Hda.
+    rewrite (dec_act_cell s t' d ltac:(lia) (f1_act_lt fb HF1 d Hda)).
+    destruct (pcons_cell_act s t' d H ltac:(lia) Hda) as (i & Hi & Ei & _). now exists i. }
+  specialize (Htot _ Hin).
+  destruct (find (fun l => accepts (dwin fd w) l (window_args (dec_act s) (code_factor fb f fd) (dwin fd w) t))
+                 (seq 0 (nlevels fb f))) as [l|] eqn:El.
+  - exists l. split; [|reflexivity]. now apply find_in_range in El.
+  - exfalso. assert (E0 : filter (fun l => accepts (dwin fd w) l (window_args (dec_act s) (code_factor fb f fd) (dwin fd w) t))
+                                 (seq 0 (nlevels fb f)) = []).
+    { apply filter_all_false. intros x Hx. exact (find_none _ _ El x Hx). }
+    rewrite E0 in Htot. discriminate.
 Qed.
 
 (** (b) for Consistency: exactly one level per cell = the grid is the one-hot image of its decoding *)
@@ -152,14 +259,13 @@ Proof.
   split.
   - intros H. split; [unfold decode; now rewrite map_length, seq_length|]. split; [intros f Hf; now apply decode_row_length|].
     split; [|split].
-    + intros t f Ht Hf. rewrite decode_cell by assumption. unfold cell_of. destruct (isact fb f) eqn:Ea.
-      * destruct (pcons_cell_act s t f H Ht Ea) as (i & Hi & Hc & _). exists i. now split.
-      * exact (pcons_cell_impl s t f H Ht Hf Ea).
+    + intros t f Ht Ea. rewrite decode_cell by (try assumption; now apply (f1_act_lt fb HF1)). unfold cell_of. rewrite Ea.
+      destruct (pcons_cell_act s t f H Ht Ea) as (i & Hi & Hc & _). exists i. now split.
     + intros t f l Ht Hf Hl. destruct (pcons_cell_act s t f H Ht Hf) as (i & Hi & Hc & Hb).
       rewrite decode_cell by (try assumption; now apply (f1_act_lt fb HF1)). unfold cell_of. rewrite Hf, Hc, is_level_some.
       rewrite (Hb l Hl). apply Nat.eqb_sym.
     + intros t f Ht Hf Ha. rewrite decode_cell by assumption. unfold cell_of. now rewrite Ha.
-  - intros (_ & _ & Hc & Hb & _) t f Ht Hf. destruct (Hc t f Ht (f1_act_lt fb HF1 f Hf)) as (i & Hi & Ei).
+  - intros (_ & _ & Hc & Hb & _) t f Ht Hf. destruct (Hc t f Ht Hf) as (i & Hi & Ei).
     apply ntrue_one. rewrite map_length, seq_length. exists i. split; [exact Hi|]. intros j Hj.
     rewrite nth_map_seq by exact Hj.
     rewrite (Hb t f j Ht Hf Hj), Ei, is_level_some. apply Nat.eqb_sym.
@@ -167,7 +273,7 @@ Qed.
 
 Lemma onehot_pcons s q : onehot s q -> Pcons fb s.
 Proof.
-  intros (_ & _ & Hc & Hb & _) t f Ht Hf. destruct (Hc t f Ht (f1_act_lt fb HF1 f Hf)) as (i & Hi & Ei).
+  intros (_ & _ & Hc & Hb & _) t f Ht Hf. destruct (Hc t f Ht Hf) as (i & Hi & Ei).
   apply ntrue_one. rewrite map_length, seq_length. exists i. split; [exact Hi|]. intros j Hj.
   rewrite nth_map_seq by exact Hj.
   rewrite (Hb t f j Ht Hf Hj), Ei, is_level_some. apply Nat.eqb_sym.
@@ -176,7 +282,7 @@ Qed.
 (** a one-hot grid determines the sequence *)
 Lemma onehot_cell_act s q t f : onehot s q -> t < T fb -> isact fb f = true -> get_cell q f t = cell_act s t f.
 Proof.
-  intros (_ & _ & Hc & Hb & _) Ht Hf. destruct (Hc t f Ht (f1_act_lt fb HF1 f Hf)) as (i & Hi & Ei). rewrite Ei. symmetry.
+  intros (_ & _ & Hc & Hb & _) Ht Hf. destruct (Hc t f Ht Hf) as (i & Hi & Ei). rewrite Ei. symmetry.
   unfold cell_act. apply find_unique; [exact Hi|]. intros j Hj. rewrite (Hb t f j Ht Hf Hj), Ei, is_level_some. apply Nat.eqb_sym.
 Qed.
 
